@@ -286,6 +286,38 @@ func runC05(ctx *report.Ctx) {
 		c05Case(ctx, c, "I3-reader-lists", readers, "abc", true)
 	})
 
+	// I5: indentation strings. Every string over {space, tab} of length <=10 (quick) / 13 (thorough) as the
+	// indentation of a content line, of a comment line and of a blank line, in four contexts
+	maxInd := report.Pick(ctx, 10, 13)
+	ctx.Bound("I5_indentation_length", maxInd)
+	part(ctx, "I5-indentation", -1, func(c *explore.Chooser) {
+		n := c.Choose(maxInd+1, "len")
+		ctxKind := c.Choose(5, "context")
+		lineKind := c.Choose(3, "line")
+		if !c.Mine() {
+			return
+		}
+		var b strings.Builder
+		for i := 0; i < n; i++ {
+			b.WriteString([]string{" ", "\t"}[c.Choose(2, "ws")])
+		}
+		line := b.String() + []string{"x", "// c", ""}[lineKind]
+		var input string
+		switch ctxKind {
+		case 0:
+			input = "title: A\n---\n" + line + "\n===\n"
+		case 1:
+			input = "title: A\n---\n-> o\n" + line + "\nz\n===\n"
+		case 2:
+			input = "title: A\n---\n-> o\n    y\n" + line + "\n    z\n===\n"
+		case 3:
+			input = "title: A\n---\n-> o\n\ty\n" + line + "\n===\n"
+		case 4:
+			input = "title: A\n---\n<<if true>>\n" + line + "\n<<endif>>\n===\n"
+		}
+		c05Case(ctx, c, "I5-indentation", []string{input}, "abc", n > 0)
+	})
+
 	// I4: seeds
 	seedAlphabet := []string{"a", "z", "0", "9", "A", "-", " ", "é"}
 	part(ctx, "I4-seeds", -1, func(c *explore.Chooser) {
